@@ -5,6 +5,7 @@
 package c14
 
 import (
+	"github.com/goatcms/goatcore/zzverif/vsched"
 	"github.com/goatcms/goatcore/app"
 	"os"
 	"encoding/json"
@@ -40,6 +41,8 @@ type Spec struct {
 	Tasks []TaskSpec `json:"tasks"`
 	Ghost bool       `json:"ghost_wait,omitempty"` // additionally submit a task that waits for an unknown task
 	Split bool       `json:"split,omitempty"`      // large program: its schedule tree is divided among all workers
+	ManagerRace bool `json:"manager_race,omitempty"` // two goroutines ask for the scope's task manager for the first time at once
+	Concurrent bool  `json:"concurrent_submission,omitempty"` // every task is submitted from its own goroutine (first submissions race on the scope's manager)
 	Bound int        `json:"bound"`
 }
 
@@ -51,6 +54,7 @@ type obs struct {
 	taskErrs  map[string]int
 	done      bool
 	infra     string
+	race      string
 }
 
 func body(t TaskSpec) string {
@@ -102,7 +106,26 @@ func build(sp Spec, o *obs) func() {
 			return
 		}
 		o.w = w
+		if sp.ManagerRace {
+			var rwg vsched.WaitGroup
+			var got [2]pipservices.TasksManager
+			for i := 0; i < 2; i++ {
+				i := i
+				rwg.Add(1)
+				vsched.Spawn(func() {
+					defer rwg.Done()
+					got[i], _ = w.Tasks.FromScope(w.Root)
+				})
+			}
+			rwg.Wait()
+			kept, _ := w.Tasks.FromScope(w.Root)
+			if got[0] != got[1] || got[0] != kept {
+				o.race = "two first requests for the scope's task manager returned different managers (tasks accepted by the replaced one are unknown to the scope's manager)"
+			}
+		}
+		var swg vsched.WaitGroup
 		for _, t := range sp.Tasks {
+			t := t
 			lock := commservices.LockMap{}
 			for _, r := range strings.Split(t.WLock, ",") {
 				if r != "" {
@@ -125,8 +148,18 @@ func build(sp Spec, o *obs) func() {
 			if t.Sandbox != "" {
 				pip.Sandbox = t.Sandbox
 			}
+			if sp.Concurrent {
+				swg.Add(1)
+				vsched.Spawn(func() {
+					defer swg.Done()
+					err := w.Runner.Run(pip)
+					o.submitErr[t.Name] = err
+				})
+				continue
+			}
 			o.submitErr[t.Name] = w.Runner.Run(pip)
 		}
+		swg.Wait()
 		if sp.Ghost {
 			o.ghostErr = w.Runner.Run(w.Pip("ghostwaiter", "probe --id=ghostwaiter.c1\n", []string{"no-such-task"}, nil, nil))
 		}
@@ -294,6 +327,16 @@ func judge(sp Spec, o *obs) func(x *explore.Exec) *explore.Verdict {
 				anyFailed = true
 			}
 		}
+		if o.race != "" {
+			return v("task-manager-not-unique", "waiting on the task manager returns once all accepted submissions have finished", "%s", o.race)
+		}
+		if sp.Concurrent {
+			for _, t := range sp.Tasks {
+				if _, known := o.taskErrs[t.Name]; o.submitErr[t.Name] == nil && !known {
+					return v("accepted-task-unknown-to-manager/"+t.Name, "waiting on the task manager returns once all accepted submissions have finished", "task %s was accepted but the scope's task manager does not know it (names with results: %v)", t.Name, o.taskErrs)
+				}
+			}
+		}
 		if (o.waitErr != nil) != anyFailed {
 			return v("manager-wait-result", "waiting on the task manager reports an error exactly when some task failed", "TasksManager.Wait returned %v, some task failed: %v (errors per task %v)", o.waitErr, anyFailed, o.taskErrs)
 		}
@@ -391,6 +434,10 @@ func programs(thorough bool) []Spec {
 	l2.WLock, l2.RLock = "", "res"
 	ps = append(ps, Spec{Tasks: []TaskSpec{l1, l2}, Bound: b})
 	ps = append(ps, LockWaitPrograms(thorough)...)
+	// first submissions racing on a scope that has no task manager yet
+	one := t("a")
+	one.One = true
+	ps = append(ps, Spec{Tasks: []TaskSpec{one}, Bound: 2, ManagerRace: true})
 	// tasks living in a scope with its own context (their failure does not reach the root scope)
 	for _, f1 := range []string{"return1", "append1"} {
 		sa := fail(t("a"), f1)
@@ -451,6 +498,12 @@ func MkProgramFor(prop string, sp Spec) *explore.Program {
 		}
 		if t.Separated {
 			s += "~sep"
+		}
+		if sp.Concurrent {
+			s += "~conc"
+		}
+		if sp.ManagerRace {
+			s += "~manager-race"
 		}
 		if t.Sandbox != "" {
 			s += "@" + t.Sandbox
@@ -522,7 +575,7 @@ func replay(wj json.RawMessage) (*fw.Violation, error) {
 
 func init() {
 	fw.Register(&fw.Check{ID: "C14", Level: "model_checking",
-		Rule: "programs = task graphs on 2-3 tasks (all wait shapes incl. diamonds and chains) x failing command variants (first/second command returns an error; a command appends an error to its scope) x body durations x a submission waiting for an unknown task, for itself, or for a task submitted later x nested pip:run from inside a body x write/read resource locks (also combined with wait lists) x a sandbox that reports its outcome only through its return value x tasks submitted in a scope with its own context; a mock application (terminal, common, open-container and pipeline modules) is bootstrapped per execution, tasks are submitted through the real Runner and run in the real self sandbox (terminal read-execute loop) with probe commands; every schedule with <= bound preemptions (quick: free context switches at blocking points only, chains and two-task graphs; thorough: 1 preemption for chains and two-task graphs, free switches for three-task graphs with concurrent tasks) with a happens-before state cache; oracle on the probe event log. states = distinct schedule traces",
+		Rule: "programs = task graphs on 2-3 tasks (all wait shapes incl. diamonds and chains) x failing command variants (first/second command returns an error; a command appends an error to its scope) x body durations x a submission waiting for an unknown task, for itself, or for a task submitted later x nested pip:run from inside a body x write/read resource locks (also combined with wait lists) x a sandbox that reports its outcome only through its return value x tasks submitted in a scope with its own context x two concurrent first requests for the scope's task manager; a mock application (terminal, common, open-container and pipeline modules) is bootstrapped per execution, tasks are submitted through the real Runner and run in the real self sandbox (terminal read-execute loop) with probe commands; every schedule with <= bound preemptions (quick: free context switches at blocking points only, chains and two-task graphs; thorough: 1 preemption for chains and two-task graphs, free switches for three-task graphs with concurrent tasks) with a happens-before state cache; oracle on the probe event log. states = distinct schedule traces",
 		Run: run, Replay: replay,
 		Assumptions: []string{"tasks under one parent scope share its context: after any failure a sibling body may be cut short (prefix), which the statement does not forbid; only order, never-after-failure and the results are judged", "a command that reports its error through AppendError and returns nil does not stop its own loop deterministically (select between done and the next line); only commands that return an error must stop the body"}})
 }
